@@ -321,6 +321,9 @@ func slice(x, lo, hi, max value) value {
 func lookup(instr *ssa.Lookup, x, idx value) value {
 	switch x := x.(type) { // map or string
 	case *omap:
+		if loadBarrierOn {
+			checkMapLoad(x)
+		}
 		v, ok := x.lookup(idx)
 		if !ok {
 			v = zero(instr.X.Type().Underlying().(*types.Map).Elem())
@@ -896,6 +899,9 @@ func unop(instr *ssa.UnOp, x value) value {
 			return -x
 		}
 	case token.MUL:
+		if loadBarrierOn {
+			checkLoad(x.(*value))
+		}
 		return load(mustDeref(instr.X.Type()), x.(*value))
 	case token.NOT:
 		return !x.(bool)
